@@ -128,7 +128,10 @@ def generate(rng, n, tier, stats):
                 i = rng.randrange(len(dims)); ax = ds.axes[i]
                 kk = rng.choice(['i', 'f', 'O']); n_ = ax.size if rng.random() < 0.9 else ax.size + 1
                 if n_ > 6: continue
-                op = ['replace_axis', dims[i] if byname(i) else i, {'name': dims[i], 'labels': rand_labels(rng, n_, kk, 'shuf'), 'kind': kk}]
+                # the new Axis keeps the name, or brings a new one (ds.axes[d] = Axis(labels, 'other name'))
+                nm = dims[i] if rng.random() < 0.65 else next(fresh)
+                stats['replace_axis_name']['same' if nm == dims[i] else 'new'] += 1
+                op = ['replace_axis', dims[i] if byname(i) else i, {'name': nm, 'labels': rand_labels(rng, n_, kk, 'shuf'), 'kind': kk}]
             else:
                 if not have: continue
                 old = rng.choice(have); op = ['rename_key', old, rng.choice([x for x in keys_pool + ['z1', 'z2'] if x not in have] + [old])]
